@@ -66,6 +66,15 @@ def call_pool():
     P.append(('x6', 'gl_compile_rx_ex', ('*', G.DOTGLOB, ['x*'])))
     P.append(('x7', 'fn_match_ex', ('.xa', '*', 0, 'x*')))
     P.append(('x8', 'fn_match_ex', ('.xa', '.*', 0, '*a')))
+    # pathlib entry points (right-anchored match with the internal multi-level match-base flag); absolute and relative patterns under the SAME flags
+    P.append(('p1', 'pl_match', ('/etc/passwd', '/etc/*', 0)))
+    P.append(('p2', 'pl_match', ('src/pkg/notes.txt', '*.txt', 0)))
+    P.append(('p3', 'pl_match', ('src/pkg/notes.txt', 'pkg/*.txt', 0)))
+    P.append(('p4', 'pl_globmatch', ('src/pkg/notes.txt', '*.txt', 0)))
+    P.append(('p5', 'pl_globmatch', ('/etc/passwd', '/etc/*', 0)))
+    P.append(('p6', 'pl_match', ('a/b/c.py', '**/c.py', G.GLOBSTAR)))
+    P.append(('p7', 'pl_match_win', ('c:/x/y.txt', 'c:/x/*', 0)))
+    P.append(('p8', 'pl_match_win', ('x/y.txt', '*.TXT', 0)))
     P.append(('g1', 'glob', ('**/f.txt', G.GLOBSTAR)))
     P.append(('g2', 'glob', ('*/c/*', 0)))
     return P
@@ -110,6 +119,11 @@ def do_call(kind, args, base):
     if kind in ('fn_compile_rx', 'gl_compile_rx'):
         m = (F if kind[0] == 'f' else G).compile(args[0], flags=args[1])._matcher
         return [[p.pattern for p in m._include], [p.pattern for p in (m._exclude or ())]]
+    if kind in ('pl_match', 'pl_globmatch', 'pl_match_win'):
+        from wcmatch import pathlib as PL
+        cls = PL.PureWindowsPath if kind.endswith('_win') else PL.PurePosixPath
+        obj = cls(args[0])
+        return (obj.globmatch if kind == 'pl_globmatch' else obj.match)(args[1], flags=args[2])
     root = os.path.join(base, 'root')
     if kind == 'real_match':
         name, pat, flags, via = args
@@ -206,6 +220,48 @@ def history_worker(job):
     return bad, n
 
 
+def deep_state(obj, depth=0, seen=None):
+    """Snapshot of everything reachable from a matcher through __slots__ / __dict__ / containers (regex objects by pattern and flags)."""
+    import re
+    seen = seen if seen is not None else set()
+    if isinstance(obj, (str, bytes, int, float, bool, type(None))):
+        return obj
+    if isinstance(obj, re.Pattern):
+        return ('re', obj.pattern, obj.flags)
+    if id(obj) in seen or depth > 6:
+        return '...'
+    seen.add(id(obj))
+    if isinstance(obj, (tuple, list)):
+        return tuple(deep_state(x, depth + 1, seen) for x in obj)
+    if isinstance(obj, dict):
+        return tuple(sorted((repr(k), deep_state(v, depth + 1, seen)) for k, v in obj.items()))
+    out = [type(obj).__name__]
+    names = []
+    for klass in type(obj).__mro__:
+        names += list(getattr(klass, '__slots__', ()))
+    names += list(getattr(obj, '__dict__', {}))
+    for n in dict.fromkeys(names):
+        try:
+            out.append((n, deep_state(getattr(obj, n), depth + 1, seen)))
+        except AttributeError:
+            out.append((n, '<unset>'))
+    return tuple(out)
+
+
+class Reentrant(os.PathLike):
+    """A path-like argument whose __fspath__ uses the very matcher it is being handed to."""
+
+    def __init__(self, value, matcher, inner, role):
+        self.value, self.matcher, self.inner, self.role = value, matcher, inner, role
+
+    def __fspath__(self):
+        if self.role == 'root':
+            self.matcher.match(self.inner, root_dir='.')
+        else:
+            self.matcher.match(self.inner)
+        return self.value
+
+
 def algebra(ctx):
     """Matcher algebra on pools of (patterns, flags, exclude); returns (violations, count, queries)."""
     from wcmatch import fnmatch as F, glob as G
@@ -245,6 +301,30 @@ def algebra(ctx):
             except AttributeError:
                 pass
         names = ['a.txt', 'A.TXT', 'a', 'b', '.a', 'a/x', 'b/x', 'x'] if not isinstance(p, bytes) and not (isinstance(p, list) and isinstance(p[0], bytes)) else [b'a.txt', b'a/x']
+        if not (f & getattr(mod, 'REALPATH', 0)):
+            # immutable all the way down: nothing reachable from the matcher changes when it is used
+            before = deep_state(m1)
+            r1 = [m1.match(n) for n in names]
+            m1.filter(names)
+            if deep_state(m1) != before:
+                bad.append(('using the matcher (match/filter) changed state reachable from it', d))
+            # ... so a call made while another call on the same object is in progress (here: from the __fspath__ of an argument)
+            # cannot disturb it - the single-threaded shadow of sharing one matcher between threads
+            if not isinstance(names[0], bytes):
+                for inner, outer in (('b', 'a.txt'), ('a.txt', 'b'), ('a/x', 'x')):
+                    want = m1.match(outer)
+                    if m1.match(Reentrant(outer, m1, inner, 'name')) != want or bool(m1.filter([Reentrant(outer, m1, inner, 'name')])) != want:
+                        bad.append((f'a nested call on the same matcher (from __fspath__ of the name) changed the answer for {outer!r}', d))
+                        break
+        elif not isinstance(names[0], bytes):
+            before = deep_state(m1)
+            for inner, outer in (('zz-missing', '.'), ('.', 'zz-missing')):
+                want = m1.match(outer, root_dir='.')
+                if m1.match(outer, root_dir=Reentrant('.', m1, inner, 'root')) != want:
+                    bad.append((f'a nested call on the same matcher (from __fspath__ of root_dir) changed the answer for {outer!r}', d))
+                    break
+            if deep_state(m1) != before:
+                bad.append(('using the matcher (REALPATH match) changed state reachable from it', d))
         if not (f & getattr(mod, 'REALPATH', 0)):
             r1 = [m1.match(n) for n in names]
             if r1 != [m1.match(n) for n in names] or m1.filter(names) != [n for n, r in zip(names, r1) if r] or m1.filter(names) != m1.filter(names):
